@@ -4,6 +4,7 @@
 mod cases;
 mod gen;
 mod indep;
+mod keys;
 mod refissuer;
 mod rng;
 mod wire;
